@@ -30,5 +30,10 @@ func updatePackageInfoFromArgs(packageInfo *packaging.PackageInfo, configArgs ma
 		return fmt.Errorf("error overriding package info: %w", err)
 	}
 
+	// the manifest was validated before the overrides were applied
+	if !packaging.IsValidNamespaceName(packageInfo.Namespace) {
+		return fmt.Errorf("invalid value '%s' for config key namespace: a namespace must be PascalCased and consist of letters and digits", packageInfo.Namespace)
+	}
+
 	return nil
 }
